@@ -289,7 +289,7 @@ Definition e_sentence (x : sx) : sx :=
   end.
 
 (** the symbol views of several command lines under one command (hypotheses of the C10 / C11
-    theorems): (floats env decls spec (argv ...)) -> (status sane no-dd-graph (view ...)) *)
+    theorems): (floats env decls spec (argv ...)) -> (status sane no-dd-graph (view ...) no-env) *)
 Definition enc_vs (s : vs) : sx :=
   match s with
   | VO o v => SL [SA (lit "o"); of_nat o; SA v]
@@ -314,7 +314,8 @@ Definition e_views (x : sx) : sx :=
           SL (map (fun w => match view D w with
                             | Some u => SL (map enc_vs u)
                             | None => SA (lit "none")
-                            end) ws)]
+                            end) ws);
+          of_bool (no_env opts)]
     | _ => SL [SA (lit "specerr")]
     end
   end.
